@@ -11,6 +11,9 @@
 //   E <e> barrier about to be called ; e <e> barrier returned
 //   P / p  local_progress ; W <flag> / w <flag> local_wait_until ; M+ / M- harness mask
 //   R <uid> callback registered ; C <uid> callback runs ; c <uid> callback done
+//   Q+ / Q-  everything this rank logs in between belongs to the SECOND communicator (scenario line
+//            `op <e> -1 other <k>`: every rank, at that point of epoch e, sends k messages on a second ygm::comm
+//            living in the same process and runs its barrier); the checks drop that window from the history
 #define HC_OWN_HOOK
 #include "hcommon.hpp"
 #include <ygm/comm.hpp>
@@ -137,6 +140,11 @@ extern "C" int sim_main(int argc, char** argv) {
     int wr, ws; MPI_Comm_rank(MPI_COMM_WORLD, &wr); MPI_Comm_size(MPI_COMM_WORLD, &ws);
     MPI_Comm_split(MPI_COMM_WORLD, 0, ws - 1 - wr, &base);
   }
+  // the second communicator (rank order reversed w.r.t. `base`) is created on first use
+  // (declared before `world`: destroyed after it, so that its destructor barrier runs when world is gone)
+  struct other_comm { std::unique_ptr<ygm::comm> c; MPI_Comm mc = MPI_COMM_NULL;
+    ~other_comm() { if (c) { hc::ev("Q+"); c.reset(); MPI_Comm_free(&mc); hc::ev("Q-"); } } } oc;
+  std::unique_ptr<ygm::comm>& other = oc.c; MPI_Comm& otherc = oc.mc;
   ygm::comm world(base);
   g_world = &world; g_rank = world.rank(); g_size = world.size(); my = g_rank;
   hc::ev("ID " + std::to_string(g_rank));
@@ -147,7 +155,7 @@ extern "C" int sim_main(int argc, char** argv) {
     if (w == "epochs") ss >> epochs;
     else if (w == "param") { std::string k; long v; ss >> k >> v; if (k == "maxfan") g_maxfan = v; else if (k == "hprog") g_hprog_pct = v; else if (k == "hcb") g_hcb_pct = v; else if (k == "hbc") g_hbc_pct = v; }
     else if (w == "sizes") { g_sizes.clear(); long v; while (ss >> v) g_sizes.push_back(v); }
-    else if (w == "op") { int e, r; ss >> e >> r; Op o; ss >> o.kind; std::string t; while (ss >> t) o.f.push_back(t); if (r == my) ops.push_back({e, o}); }
+    else if (w == "op") { int e, r; ss >> e >> r; Op o; ss >> o.kind; std::string t; while (ss >> t) o.f.push_back(t); if (r == my || r == -1) ops.push_back({e, o}); }
   }
   {
     std::unique_ptr<ygm::detail::interrupt_mask> mask; int mask_left = 0;
@@ -163,6 +171,17 @@ extern "C" int sim_main(int argc, char** argv) {
         else if (o.kind == "mask") { mask_left = atoi(o.f[0].c_str()) + 1; hc::ev("M+"); mask.reset(new ygm::detail::interrupt_mask(world)); }
         else if (o.kind == "cb") { uint64_t cu = strtoull(o.f[0].c_str(), 0, 10); int dest = atoi(o.f[1].c_str()); long size = atol(o.f[2].c_str()); hc::ev("R " + o.f[0]);
           world.register_pre_barrier_callback([cu, dest, size, e]() { hc::ev("C " + std::to_string(cu)); bool was = g_in_cb; g_in_cb = true; issue_async(cu, dest, size, e, 1); g_in_cb = was; hc::ev("c " + std::to_string(cu)); }); }
+        else if (o.kind == "gate") {   // gate <kind> <who> <epoch> <count> <max_steps>: directed schedules (simmpi_gate)
+          simmpi_gate(atoi(o.f[0].c_str()), atoi(o.f[1].c_str()), atoi(o.f[2].c_str()), atoi(o.f[3].c_str()), atoi(o.f[4].c_str()));
+        }
+        else if (o.kind == "other") {
+          hc::ev("Q+");
+          if (!other) { int br, bs; MPI_Comm_rank(base, &br); MPI_Comm_size(base, &bs); MPI_Comm_split(base, 0, bs - 1 - br, &otherc); other.reset(new ygm::comm(otherc)); }
+          int k = atoi(o.f[0].c_str());
+          if (other->rank() == 0) for (int i = 0; i < k; ++i) other->async(other->size() - 1, [](int) {}, i);
+          other->barrier();
+          hc::ev("Q-");
+        }
         else if (o.kind == "allreduce") { hc::ev("AR"); long v = world.all_reduce_sum((long)1); hc::ev("ar " + std::to_string(v)); }
         if (mask && --mask_left == 0) { mask.reset(); hc::ev("M-"); }
       }
